@@ -173,7 +173,7 @@ def run(ctx):
     tmp = tempfile.mkdtemp(prefix="verif-c28-")
     try:
         kinds = ["empty", "rerun", "rerun", "edit", "edit"]
-        for i in range(ctx.n(45, 500)):
+        for i in range(ctx.n(30, 500)):
             p = sc.gen_program(rng, p_fail=0.12, p_limits=0.3, allow_badexec=(i % 5 == 0))
             while not sc.feasible(p):       # an infeasible job waits forever in a real run (outside C28's domain)
                 p = sc.gen_program(rng, p_fail=0.12, p_limits=0.3, allow_badexec=(i % 5 == 0))
